@@ -12,9 +12,12 @@ import (
 	"github.com/sharedcode/sop/cache"
 	"github.com/sharedcode/sop/encoding"
 	"github.com/sharedcode/sop/fs"
+
+	"verifharness/fsfacts"
+	"verifharness/hx"
 )
 
-func init() { register("C24", driveC24) }
+func main() { hx.Main(driveC24, "Sop.Facts", fsfacts.Facts, nil) }
 
 func showHandle(h sop.Handle) string {
 	b := func(x bool) string {
@@ -23,23 +26,23 @@ func showHandle(h sop.Handle) string {
 		}
 		return "0"
 	}
-	return fmt.Sprintf("%s %s %s %s %d %d %s", hexb(h.LogicalID[:]), hexb(h.PhysicalIDA[:]), hexb(h.PhysicalIDB[:]),
+	return fmt.Sprintf("%s %s %s %s %d %d %s", hx.Hexb(h.LogicalID[:]), hx.Hexb(h.PhysicalIDA[:]), hx.Hexb(h.PhysicalIDB[:]),
 		b(h.IsActiveIDB), h.Version, h.WorkInProgressTimestamp, b(h.IsDeleted))
 }
 
-func genUUID(p *prng) sop.UUID {
+func genUUID(p *hx.Prng) sop.UUID {
 	var u sop.UUID
-	switch p.intn(6) {
+	switch p.Intn(6) {
 	case 0: // nil
 	case 1:
 		for i := range u {
 			u[i] = 0xff
 		}
 	case 2:
-		u[p.intn(16)] = byte(1 << p.intn(8))
+		u[p.Intn(16)] = byte(1 << p.Intn(8))
 	default:
 		for i := range u {
-			u[i] = byte(p.u64())
+			u[i] = byte(p.U64())
 		}
 	}
 	return u
@@ -48,78 +51,77 @@ func genUUID(p *prng) sop.UUID {
 var edge32 = []int32{0, 1, -1, math.MaxInt32, math.MinInt32, 255, 256, -256, 65535, 65536, 1 << 24, -(1 << 24)}
 var edge64 = []int64{0, 1, -1, math.MaxInt64, math.MinInt64, 255, 256, 1 << 32, -(1 << 32), 1 << 56, -(1 << 56), 1758400000000}
 
-func genHandle(p *prng) sop.Handle {
+func genHandle(p *hx.Prng) sop.Handle {
 	h := sop.Handle{LogicalID: genUUID(p), PhysicalIDA: genUUID(p), PhysicalIDB: genUUID(p),
-		IsActiveIDB: p.chance(1, 2), IsDeleted: p.chance(1, 2)}
-	if p.chance(1, 2) {
-		h.Version = edge32[p.intn(len(edge32))]
+		IsActiveIDB: p.Chance(1, 2), IsDeleted: p.Chance(1, 2)}
+	if p.Chance(1, 2) {
+		h.Version = edge32[p.Intn(len(edge32))]
 	} else {
-		h.Version = int32(p.u64())
+		h.Version = int32(p.U64())
 	}
-	if p.chance(1, 2) {
-		h.WorkInProgressTimestamp = edge64[p.intn(len(edge64))]
+	if p.Chance(1, 2) {
+		h.WorkInProgressTimestamp = edge64[p.Intn(len(edge64))]
 	} else {
-		h.WorkInProgressTimestamp = int64(p.u64())
+		h.WorkInProgressTimestamp = int64(p.U64())
 	}
 	return h
 }
 
-func driveC24(args []string) error {
-	o := parseOpts(args)
-	s := newSession(o, "cases: (a) handle values mixing edge and random ids/int32/int64/flags, encoded by encoding.HandleEncoder and decoded back; "+
+func driveC24(o hx.RunOpts) error {
+	s := hx.NewSession(o, "cases: (a) handle values mixing edge and random ids/int32/int64/flags, encoded by encoding.HandleEncoder and decoded back; "+
 		"(b) id halves and hash moduli through fs.getBlockOffsetAndHandleInBlockOffset; (c) real registry files: a handle is added through fs.NewRegistry and the touched 4096-byte block is compared byte for byte "+
 		"(checksum trailer masked) with the model's slot write. distinct = canonical op-line hash; non-trivial = at least one non-zero id byte and a non-zero version or timestamp (a), id halves >= modulus (b), every (c) case")
-	p := newPrng(o.seed)
+	p := hx.NewPrng(o.Seed)
 	m := encoding.NewHandleMarshaler()
 
 	// (a) codec round trips
-	n := o.n(4000, 200000)
+	n := o.N(4000, 200000)
 	for i := 0; i < n; i++ {
 		h := genHandle(p)
-		s.beginCase("codec")
+		s.BeginCase("codec")
 		var buf [sop.HandleSizeInBytes]byte
 		b, err := m.Marshal(h, buf[:0])
 		if err != nil {
 			return err
 		}
-		s.op("enc "+showHandle(h), hexb(b))
+		s.Op("enc "+showHandle(h), hx.Hexb(b))
 		var back sop.Handle
 		if err := m.Unmarshal(b, &back); err != nil {
-			s.op("dec "+hexb(b), "none")
-			s.fail("C24/decode-error", "decoding an encoded handle failed", err.Error())
+			s.Op("dec "+hx.Hexb(b), "none")
+			s.Fail("C24/decode-error", "decoding an encoded handle failed", err.Error())
 		} else {
-			s.op("dec "+hexb(b), showHandle(back))
+			s.Op("dec "+hx.Hexb(b), showHandle(back))
 			if back != h {
-				s.fail("C24/round-trip", "decode(encode(h)) != h", showHandle(h)+" -> "+showHandle(back))
+				s.Fail("C24/round-trip", "decode(encode(h)) != h", showHandle(h)+" -> "+showHandle(back))
 			}
 		}
 		if len(b) != sop.HandleSizeInBytes {
-			s.fail("C24/length", "encoded length differs from HandleSizeInBytes", fmt.Sprint(len(b)))
+			s.Fail("C24/length", "encoded length differs from HandleSizeInBytes", fmt.Sprint(len(b)))
 		}
-		s.hit("codec")
+		s.Hit("codec")
 		if h.LogicalID != sop.NilUUID && (h.Version != 0 || h.WorkInProgressTimestamp != 0) {
-			s.nontrivial()
+			s.Nontrivial()
 		}
 		if h.Version < 0 {
-			s.hit("neg_version")
+			s.Hit("neg_version")
 		}
 		if h.WorkInProgressTimestamp < 0 {
-			s.hit("neg_wip")
+			s.Hit("neg_wip")
 		}
 		// decoding arbitrary bytes: the model must agree on what any 62-byte record means
-		if p.chance(1, 4) {
+		if p.Chance(1, 4) {
 			raw := make([]byte, sop.HandleSizeInBytes)
 			for j := range raw {
-				raw[j] = byte(p.u64())
+				raw[j] = byte(p.U64())
 			}
-			if p.chance(1, 2) {
-				raw[48] = byte(p.intn(3))
-				raw[61] = byte(p.intn(3))
+			if p.Chance(1, 2) {
+				raw[48] = byte(p.Intn(3))
+				raw[61] = byte(p.Intn(3))
 			}
 			var t sop.Handle
 			if err := m.Unmarshal(raw, &t); err == nil {
-				s.op("dec "+hexb(raw), showHandle(t))
-				s.hit("raw_decode")
+				s.Op("dec "+hx.Hexb(raw), showHandle(t))
+				s.Hit("raw_decode")
 			}
 		}
 	}
@@ -127,39 +129,39 @@ func driveC24(args []string) error {
 	// (b) offsets
 	bs := uint64(fs.VerifBlockSize())
 	hp := uint64(fs.VerifHandlesPerBlock())
-	n = o.n(2000, 100000)
+	n = o.N(2000, 100000)
 	for i := 0; i < n; i++ {
 		id := genUUID(p)
 		mods := []int{1, 2, 3, 7, 250, 749, 750, 100000}
-		md := mods[p.intn(len(mods))]
+		md := mods[p.Intn(len(mods))]
 		hi, lo := id.Split()
 		bo, ho := fs.VerifOffsets(id, md)
-		s.beginCase("offsets")
-		s.op(fmt.Sprintf("off %d %d %d", hi, lo, md), fmt.Sprintf("%d %d", bo, ho))
-		s.hit("offsets")
+		s.BeginCase("offsets")
+		s.Op(fmt.Sprintf("off %d %d %d", hi, lo, md), fmt.Sprintf("%d %d", bo, ho))
+		s.Hit("offsets")
 		if hi >= uint64(md) && lo >= hp {
-			s.nontrivial()
+			s.Nontrivial()
 		}
 		if uint64(bo)%bs != 0 || uint64(bo)+bs > uint64(md)*bs || uint64(ho)+sop.HandleSizeInBytes > bs-4 || uint64(ho)%sop.HandleSizeInBytes != 0 {
-			s.fail("C24/offset-out-of-bounds", "slot offset leaves the block or overlaps the checksum", fmt.Sprintf("id=%v mod=%d -> %d %d", id, md, bo, ho))
+			s.Fail("C24/offset-out-of-bounds", "slot offset leaves the block or overlaps the checksum", fmt.Sprintf("id=%v mod=%d -> %d %d", id, md, bo, ho))
 		}
 	}
 
 	// (c) real registry file: the bytes a write changes
-	n = o.n(30, 400)
+	n = o.N(30, 400)
 	ctx := context.Background()
 	for i := 0; i < n; i++ {
-		if err := c24RegistryCase(ctx, s, p.fork()); err != nil {
+		if err := c24RegistryCase(ctx, s, p.Fork()); err != nil {
 			return err
 		}
 	}
-	return s.finish()
+	return s.Finish()
 }
 
 // c24RegistryCase adds handles whose ids land in one block of a fresh registry and checks, after every
 // write, that exactly the addressed slot (and the 4-byte trailer) of the block changed.
-func c24RegistryCase(ctx context.Context, s *session, p *prng) error {
-	dir, err := os.MkdirTemp(workRoot(), "c24-")
+func c24RegistryCase(ctx context.Context, s *hx.Session, p *hx.Prng) error {
+	dir, err := os.MkdirTemp(hx.WorkRoot(), "c24-")
 	if err != nil {
 		return err
 	}
@@ -169,7 +171,7 @@ func c24RegistryCase(ctx context.Context, s *session, p *prng) error {
 	if err != nil {
 		return err
 	}
-	md := []int{1, 2, 5}[p.intn(3)]
+	md := []int{1, 2, 5}[p.Intn(3)]
 	reg := fs.NewRegistry(true, md, rt, l2)
 	defer reg.Close()
 	table := "t24"
@@ -178,22 +180,22 @@ func c24RegistryCase(ctx context.Context, s *session, p *prng) error {
 	}
 	bsz := fs.VerifBlockSize()
 	hp := fs.VerifHandlesPerBlock()
-	s.beginCase(fmt.Sprintf("regfile mod=%d", md))
-	s.nontrivial()
+	s.BeginCase(fmt.Sprintf("regfile mod=%d", md))
+	s.Nontrivial()
 	used := map[int]bool{}
-	block := p.intn(md)
+	block := p.Intn(md)
 	prev := make([]byte, bsz)
-	k := 2 + p.intn(5)
+	k := 2 + p.Intn(5)
 	for j := 0; j < k; j++ {
-		slot := p.intn(hp)
+		slot := p.Intn(hp)
 		if used[slot] {
 			continue
 		}
 		used[slot] = true
 		h := genHandle(p)
 		// id chosen by coordinates: high%mod = block, low%handlesPerBlock = slot
-		hi := uint64(block) + uint64(md)*uint64(p.intn(1000))
-		lo := uint64(slot) + uint64(hp)*uint64(p.intn(1000))
+		hi := uint64(block) + uint64(md)*uint64(p.Intn(1000))
+		lo := uint64(slot) + uint64(hp)*uint64(p.Intn(1000))
 		var id sop.UUID
 		for b := 0; b < 8; b++ {
 			id[b] = byte(hi >> (56 - 8*b))
@@ -215,7 +217,7 @@ func c24RegistryCase(ctx context.Context, s *session, p *prng) error {
 			return err
 		}
 		if len(raw) != md*bsz {
-			s.fail("C24/segment-size", "segment file size is not hashMod*blockSize", fmt.Sprint(len(raw)))
+			s.Fail("C24/segment-size", "segment file size is not hashMod*blockSize", fmt.Sprint(len(raw)))
 		}
 		cur := append([]byte(nil), raw[block*bsz:(block+1)*bsz]...)
 		var buf [sop.HandleSizeInBytes]byte
@@ -228,18 +230,18 @@ func c24RegistryCase(ctx context.Context, s *session, p *prng) error {
 		for t := bsz - 4; t < bsz; t++ {
 			pm[t] = 0
 		}
-		s.op(fmt.Sprintf("slot %s %d %s", hexb(pm), slot, hexb(rec)), hexb(masked))
-		s.hit("regfile_write")
+		s.Op(fmt.Sprintf("slot %s %d %s", hx.Hexb(pm), slot, hx.Hexb(rec)), hx.Hexb(masked))
+		s.Hit("regfile_write")
 		// direct oracle: bytes outside the slot and trailer unchanged; other blocks untouched (still zero)
 		for t := 0; t < bsz-4; t++ {
 			in := t >= slot*sop.HandleSizeInBytes && t < (slot+1)*sop.HandleSizeInBytes
 			if !in && cur[t] != prev[t] {
-				s.fail("C24/frame", "a slot write changed a byte outside its slot", fmt.Sprintf("slot %d byte %d", slot, t))
+				s.Fail("C24/frame", "a slot write changed a byte outside its slot", fmt.Sprintf("slot %d byte %d", slot, t))
 				break
 			}
 		}
 		if _, err := fs.VerifUnmarshalData(cur); err != nil {
-			s.fail("C24/checksum", "block checksum invalid after a slot write", err.Error())
+			s.Fail("C24/checksum", "block checksum invalid after a slot write", err.Error())
 		}
 		for ob := 0; ob < md; ob++ {
 			if ob == block {
@@ -247,7 +249,7 @@ func c24RegistryCase(ctx context.Context, s *session, p *prng) error {
 			}
 			for _, x := range raw[ob*bsz : (ob+1)*bsz] {
 				if x != 0 {
-					s.fail("C24/other-block", "a slot write changed another block", fmt.Sprint(ob))
+					s.Fail("C24/other-block", "a slot write changed another block", fmt.Sprint(ob))
 					break
 				}
 			}
